@@ -180,6 +180,27 @@ impl IdentityRegistry {
     }
 }
 
+/// Verification hook: add-only, compiled only with `--cfg anapaya_scion_sdk_verif`.
+#[cfg(anapaya_scion_sdk_verif)]
+impl IdentityRegistry {
+    /// Returns the registry's associations (token key, identity) and sessions (identity, expiry).
+    pub fn verif_snapshot(&self) -> (Vec<(String, Identity)>, Vec<(Identity, Instant)>) {
+        let state = self.state.load();
+        (
+            state
+                .associations
+                .iter()
+                .map(|(key, identity)| (key.to_string(), *identity))
+                .collect(),
+            state
+                .sessions
+                .iter()
+                .map(|(identity, session)| (*identity, session.expires_at))
+                .collect(),
+        )
+    }
+}
+
 impl SnapTunIdentityRegistry for IdentityRegistry {
     fn register(
         &self,
